@@ -219,6 +219,48 @@ fn positions(len: usize) -> Vec<usize> {
     }
 }
 
+/// Round trip, trailing garbage, a chunked reader and three prefixes for one
+/// record with a payload of `n` bytes (the full per-record treatment would
+/// decode hundreds of thousands of prefixes of that size).
+fn check_huge_record(rep: &Reporter, n: usize, st: &CodecStats) {
+    st.records.fetch_add(1, Ordering::Relaxed);
+    let payload: String = std::iter::repeat("0123456789abcdef").take(n / 16 + 1).collect::<String>()[..n].to_string();
+    let r = MRec::Append((7, 9), payload);
+    let mut bytes = enc::encode(&r);
+    let len = bytes.len();
+    let what = format!("record with a payload of {} bytes ({} encoded)", n, len);
+    st.decodes.fetch_add(1, Ordering::Relaxed);
+    match decode(&bytes) {
+        Dec::Ok { rec, consumed, reencoded } if rec == r && consumed == len && reencoded == bytes => {}
+        other => {
+            rep.report(mk(rep, "round-trip", format!("{} does not round-trip: {:?}", what, DecShort(&other)), &bytes[..64]));
+            return;
+        }
+    }
+    for cut in [12usize, len / 2, len - 1] {
+        st.decodes.fetch_add(1, Ordering::Relaxed);
+        st.prefixes.fetch_add(1, Ordering::Relaxed);
+        match decode(&bytes[..cut]) {
+            Dec::Err(std::io::ErrorKind::UnexpectedEof) => {}
+            other => {
+                rep.report(mk(rep, "prefix-not-eof", format!("prefix of length {} of a {} decodes to {:?}, not UnexpectedEof", cut, what, DecShort(&other)), &bytes[..64]));
+                return;
+            }
+        }
+    }
+    bytes.extend_from_slice(&[0xAA; 16]);
+    st.decodes.fetch_add(1, Ordering::Relaxed);
+    match decode(&bytes) {
+        Dec::Ok { consumed, .. } if consumed == len => {}
+        other => rep.report(mk(rep, "reads-past-record", format!("{} followed by garbage: {:?}", what, DecShort(&other)), &bytes[..64])),
+    }
+    st.decodes.fetch_add(1, Ordering::Relaxed);
+    match decode_dribbled(&bytes, 65536) {
+        Ok((rec, consumed)) if rec == r && consumed == len => {}
+        other => rep.report(mk(rep, "decode-depends-on-read-granularity", format!("{} through a reader returning at most 65536 bytes per read: {:?}", what, other.map(|(x, c)| (x.short(), c))), &bytes[..64])),
+    }
+}
+
 fn check_record(rep: &Reporter, r: &MRec, thorough: bool, st: &CodecStats) {
     st.records.fetch_add(1, Ordering::Relaxed);
     let bytes = enc::encode(r);
@@ -491,6 +533,9 @@ pub fn run(rep: &Reporter, thorough: bool) -> Value {
         arbitrary: AtomicU64::new(0),
         arbitrary_accepted: AtomicU64::new(0),
     };
+    // one record above 64 MiB (and, thorough, one above 256 MiB would not fit the
+    // time budget): size limits hidden in the decoder show only up there
+    check_huge_record(rep, (64 << 20) + 33, &st);
     let recs = structured_records(false);
     let kinds: Mutex<[u64; 6]> = Mutex::new([0; 6]);
     let idx = AtomicUsize::new(0);
